@@ -354,7 +354,7 @@ fn random_occupancy_model(rng: &mut Rng) -> Model {
         m.loads.push(SpaceLoads {
             id: uid(l),
             name: format!("L{}", l),
-            area_per_person: 10.0,
+            area_per_person: *rng.pick(&[0.0f32, 10.0, 12.5]),      // (not used by the model: the occupancy load is per m2 already)
             people_schedule: pick(rng),
             people_sensible: rng.range(0, 12) as f32 * 0.5,
             people_latent: 1.0,
